@@ -133,8 +133,13 @@ def gen_tasks(count, seed, *, nmin=3, nmax=8, length=6, norm=None, p_fault=0.35,
     rng = random.Random(f"caching-{seed}")
     small = None
     tasks = []
+    special = CS.special_scenarios()
     for i in range(count):
-        if rng.random() < small_frac:
+        if rng.random() < 0.06:
+            scn = dict(rng.choice(special))
+            scn["norm"] = rng.random() < 0.5 if norm is None else norm
+            scn["reg_seed"] = rng.choice([0, rng.randrange(1, 1000)])
+        elif rng.random() < small_frac:
             if small is None:
                 small = list(CS.small_scenarios(3))
             scn = dict(rng.choice(small))
